@@ -26,7 +26,7 @@ GEN_OBLIGATION = {
     'MoneyConvImpl': 'Proofs/GenMoneyConvEq.vo', 'ConvStackImpl': 'Proofs/GenConvStackEq.vo',
     'HashImpl': 'Proofs/GenHashEq.vo', 'EffectsImpl': 'Proofs/EffectsAtomic.vo',
     'RoundingImpl': 'Proofs/RoundingImplSpec.vo', 'AllocImpl': 'Proofs/GenAllocEq.vo',
-    'RatesImpl': 'Proofs/GenRatesEq.vo',
+    'RatesImpl': 'Proofs/GenRatesEq.vo', 'FractionImpl': 'Proofs/GenFractionEq.vo',
 }
 
 
